@@ -22,7 +22,7 @@ FUNCS = [('giscanner/gdumpparser.py',
 def conditions(tier):
     import h_c12 as H
     quick = tier == 'quick'
-    T = 120 if quick else 1500
+    T = 200 if quick else 1500
     NG = H.N_GT
     conds = []
     # property flag words
